@@ -311,9 +311,9 @@ func (st *State) evalSpec(e *SExpr, env *specEnv) Value {
 			keep = append(keep, (*env.facts)[:nFacts]...)
 			for _, f := range (*env.facts)[nFacts:] {
 				if strings.Contains(f, name) {
-					if !strings.HasPrefix(f, "(= (") && !strings.HasPrefix(f, "(forall ((") {
-						// an age fact about a read under the binder: quantified it would match its
-						// own instances (rid of a reference read from the bound object): left out
+					if strings.Contains(f, "(rid "+name+")") {
+						// an age fact about a read FROM the bound object itself: quantified, its
+						// trigger (rid of the bound variable) would match its own instances: left out
 						continue
 					}
 					if recursesOnBound(f, name) {
